@@ -6,18 +6,23 @@ import (
 
 type elem struct {
 	variable Var
-	assocers []any
 	indices  []any
 	setValue any
 }
 
 func (ev *elem) Set(v0 any) error {
-	var err error
+	// Take the containers from the current value of the variable: it may have
+	// been assigned since MakeElement, by an earlier lvalue of the same
+	// assignment (set a[0] a[1] = x y) or by the right-hand side.
+	assocers, err := elemAssocers(ev.variable, ev.indices)
+	if err != nil {
+		return err
+	}
 	v := v0
 	// Evaluate the actual new value from inside out. See comments in
 	// MakeElement for how element assignment works.
-	for i := len(ev.assocers) - 1; i >= 0; i-- {
-		v, err = vals.Assoc(ev.assocers[i], ev.indices[i], v)
+	for i := len(assocers) - 1; i >= 0; i-- {
+		v, err = vals.Assoc(assocers[i], ev.indices[i], v)
 		if err != nil {
 			return err
 		}
@@ -54,18 +59,28 @@ func MakeElement(v Var, indices []any) (Var, error) {
 	//
 	// When the right-hand side of the assignment becomes available, the new
 	// value for $a is evaluated by doing Assoc from inside out.
+	//
+	// The assocers are evaluated here only to report a bad index before the
+	// right-hand side is evaluated; Set evaluates them again.
+	if _, err := elemAssocers(v, indices); err != nil {
+		return nil, err
+	}
+	return &elem{v, indices, nil}, nil
+}
+
+// Evaluates the assocers of an element (see MakeElement) from the current
+// value of the variable.
+func elemAssocers(v Var, indices []any) ([]any, error) {
 	assocers := make([]any, len(indices))
-	varValue := v.Get()
-	assocers[0] = varValue
+	assocers[0] = v.Get()
 	for i, index := range indices[:len(indices)-1] {
-		lastAssocer := assocers[i]
-		v, err := vals.Index(lastAssocer, index)
+		v, err := vals.Index(assocers[i], index)
 		if err != nil {
 			return nil, err
 		}
 		assocers[i+1] = v
 	}
-	return &elem{v, assocers, indices, nil}, nil
+	return assocers, nil
 }
 
 // DelElement deletes an element. It uses a similar process to MakeElement,
